@@ -17,7 +17,7 @@ open GoPlugin
 exit, closed stdout, malformed line, wrong core version, unparsable / incompatible version, address
 translation or resolution failure, disallowed protocol, bad certificate, unsupported or unparsable
 multiplexing flag — and a panic. -/
-theorem start_failure_kills (P : Handshake.Params) (c : Handshake.HostCfg) (e : Handshake.Ext) (i : Handshake.Input) :
+theorem start_failure_kills (P : Handshake.Params) (hK : P.deferKillsOnPanic = true) (c : Handshake.HostCfg) (e : Handshake.Ext) (i : Handshake.Input) :
     (∀ k killed, Handshake.start P c e i = .err k killed → killed = true) ∧
     (∀ killed, Handshake.start P c e i = .panic killed → killed = true) := by
   constructor
@@ -25,7 +25,16 @@ theorem start_failure_kills (P : Handshake.Params) (c : Handshake.HostCfg) (e : 
   · intro killed h
     unfold Handshake.start at h
     cases hb : Handshake.body P c e i <;> simp [hb, Handshake.deferred] at h
-    exact h
+    rw [← h]; exact hK
+
+/-- … and a panic raised by code that `Start` calls while the launched process exists — a custom runner's
+`PluginToHost` or `Diagnose`, the host's logger — reaches the caller only after the process has been killed
+(fact: the deferred clean-up recovers, kills when a panic is in flight, and re-panics). -/
+theorem foreign_panic_kills (P : Handshake.Params) (hP : P.Good) : Handshake.startForeignPanic P = .panic true := by
+  simp [Handshake.startForeignPanic, Handshake.deferred, hP.2.2.2.2.2]
+
+/-- a clean-up that only looks at the named result `err` skips the kill while a panic unwinds (`err` is still nil) -/
+theorem no_recover_witness : Handshake.startForeignPanic ⟨true, true, 4, 50, 1, true, false⟩ = .panic false := by decide
 
 /-- With the good facts a start either succeeds with an address or fails having killed the process: there is
 no third outcome (no nil error with nil address, which would leave the process running). -/
